@@ -30,10 +30,15 @@ def run(ctx, col, tier):
              "else stored", floor=5, shape=True)
     col.rule("R-WIRE", "each transform class passes its own parameters to its own builder "
              "(Translate->translate3d, Scale->scale3d, RotateX->rotate3d_x, ...)", floor=7, shape=True)
+    col.rule("R-STATE", "applying a transform leaves the transform object unchanged: no method other than __init__ "
+             "assigns to self or mutates a container held by self without undoing it (stale removal lists, "
+             "a matrix conjugated twice, a cached array shared between results); zero expected, positive examples kept", floor=1)
     col.rule("R-PURE", "inputs untouched, result fresh", floor=3)
     col.not_decided += ["distance preservation and inverse round trip as numeric statements",
                         "angle values", "unit-length requirement on the Rodrigues axis"]
 
+    from ..rules import stateless
+    col.guard(stateless.check, ctx, col, "R-STATE", ("swcgeom.transforms.geometry", "swcgeom.transforms.base"))
     col.guard(shapes, ctx, col)
     col.guard(conj, ctx, col)
     col.guard(layout, ctx, col)
